@@ -380,3 +380,8 @@ def main(argv):
     except ToolError as e:
         print('TOOL-ERROR: %s' % e)
         return 2
+    except Exception as e:      # a bug in the machinery is a tool error, never a verdict
+        import traceback
+        traceback.print_exc()
+        print('TOOL-ERROR: unexpected %s: %s' % (type(e).__name__, e))
+        return 2
